@@ -41,6 +41,11 @@ func recvCorpus() []struct {
 		{0, []rop{dgood(0, []byte("ABC")), {kind: 'C'}, dgood(1, []byte("DEF")), rd(8), rd(8)}},        // local close: later data must be refused, not panic
 		{0, []rop{{kind: 'C'}, dgood(0, []byte("ABC")), dgood(0, []byte("ABC"))}},
 		{0, []rop{dgood(0, nil), dgood(1, []byte("Z")), rd(4)}},
+		// SetReadBuffer in the middle of a history: after a burst and a drain the limit is the
+		// requested one (block size 4), not whatever the buffer once grew to
+		{0, []rop{dgood(0, []byte("0123456789abcdefghijklmnopqrstuvwxyz0123456789")), rd(64), {kind: 'b', n: 8}, dgood(1, []byte("123456789")), dgood(1, []byte("12345678")), rd(64), dgood(2, []byte("1"))}},
+		{0, []rop{dgood(0, []byte("0123456789abcdefghij")), dgood(1, []byte("0123456789abcdefghij")), {kind: 'b', n: 10}, dgood(2, []byte("x")), rd(64), dgood(2, []byte("0123456789a")), dgood(2, []byte("0123456789")), rd(64)}},
+		{8, []rop{dgood(0, []byte("12345678")), {kind: 'b', n: 2}, rd(8), dgood(1, []byte("12345")), dgood(1, []byte("1234")), {kind: 'b', n: 0}, dgood(2, []byte("0123456789abcdefghijklmnopqrstuvwxyz")), rd(64), {kind: 'b', n: 12}, dgood(3, []byte("0123456789abc"))}},
 		// after a close the reader drains with buffers much smaller than what is pending
 		{0, []rop{dgood(0, []byte("0123456789abcdefghijklmnopqrstuvwxyz")), {kind: 'c'}, rd(1), rd(7), rd(1), rd(7), rd(7), rd(64), rd(1)}},
 		{0, []rop{dgood(0, []byte("0123456789abcdefghij")), dgood(1, []byte("klmnopqrstuvwxyz")), {kind: 'C'}, rd(7), rd(7), rd(1), rd(64), rd(64)}},
@@ -80,6 +85,15 @@ func randRecv(rnd *common.Rand) (int, []rop) {
 		case k == 11 && !closed && rnd.Chance(1, 2):
 			closed = true
 			ops = append(ops, rop{kind: "cC"[rnd.Intn(2)]})
+		case k == 14 && rnd.Chance(1, 2):
+			ops = append(ops, rop{kind: 'b', n: []int{0, 1, 3, 4, 6, 8, 12, 20, 40}[rnd.Intn(9)]})
+		case k == 15 && rnd.Chance(1, 3):
+			b := make([]byte, 20+rnd.Intn(40)) // a burst that makes the read buffer grow
+			for j := range b {
+				b[j] = byte('a' + j%26)
+			}
+			ops = append(ops, dgood(seq, b))
+			seq++
 		case k == 12 || k == 13:
 			b := make([]byte, rnd.Intn(9))
 			for j := range b {
@@ -109,6 +123,9 @@ func parseRecvOps(f string) []rop {
 				b, _ := common.UnHex(p[3])
 				ops = append(ops, rop{kind: 'd', known: p[1] == "1", seq: seq, payload: string(b), cls: "replay"})
 			}
+		case "b":
+			n, _ := strconv.Atoi(p[1])
+			ops = append(ops, rop{kind: 'b', n: n})
 		case "c":
 			ops = append(ops, rop{kind: 'c'})
 		case "r":
@@ -209,6 +226,14 @@ func Run(r *common.Run) error {
 				}
 				runWake(r, false)
 				runWake(r, true)
+			case "lsn":
+				ops := strings.Split(f[2], ",")
+				for i := range ops {
+					if ops[i][0] == 'O' {
+						ops[i] = "O"
+					}
+				}
+				runListener(r, ops, "replay")
 			case "close":
 				runCloseFail(r, f[2], false)
 				runCloseFail(r, f[2], true)
@@ -283,6 +308,20 @@ func Run(r *common.Run) error {
 				}
 			}
 		}
+	}
+	// listener life cycle x incoming open requests
+	for i, c := range []string{"O", "L,A,O", "L,O,A", "L,K,O", "L,A,K,O", "L,O,A,K,O", "L,K,L,O,A", "L,K,A,O,L,A,O", "L,A,A,O,O,K,O", "L,O,A,O,A,K,A,O"} {
+		r.Mark("case listener %d", i)
+		runListener(r, strings.Split(c, ","), "listener-corpus")
+	}
+	for i := 0; i < r.Pick(150, 2000); i++ {
+		r.Mark("case listener-random %d", i)
+		n := 2 + r.Rnd.Intn(9)
+		ops := make([]string, n)
+		for k := range ops {
+			ops[k] = []string{"L", "L", "K", "A", "A", "O", "O", "O"}[r.Rnd.Intn(8)]
+		}
+		runListener(r, ops, "listener-random")
 	}
 	r.Mark("case wrap-quick")
 	runWrapQuick(r)
